@@ -18,12 +18,12 @@ NA = {
 TECH = "deterministic simulation with fault injection"
 CHECKS = [
  ("C14","wfsim serde","fault_enumeration",
-  "Seeded search over delivery faults for execution-context JSON: each run builds a context from a reference model, serializes it with a tape-chosen producer (incl. to_writer over a fault-injecting Write and the C API), damages or re-encodes the document in transit (EINTR, short I/O, hard error / EOF at a chosen offset, byte corruption, duplicated / reordered / re-encoded members, type swaps, renames, nesting changes, damaged $lists entries, deep type descriptors) and consumes it through one of six entry points into a fresh or pre-populated context; a reference reader decides accept/reject and the exact resulting state, and deep well-typedness plus probe filters are checked after every outcome. Sampling over a very large space, not proof.",
+  "Seeded search over delivery faults for execution-context JSON: each run builds a context from a reference model, serializes it with a tape-chosen producer (incl. to_writer over a fault-injecting Write and the C API), damages or re-encodes the document in transit (EINTR, short I/O, hard error / EOF at a chosen offset, byte corruption, duplicated / reordered / re-encoded members, type swaps, renames, nesting changes, damaged $lists entries, deep type descriptors) and consumes it through one of six entry points into a fresh or pre-populated context; schemes include one 65..140 fields wide and one with names the engine knows in other roles, contexts are filled by tape-chosen routes (directly, through a borrow guard, refilled after clear, overwritten, cloned, taken); a reference reader decides accept/reject and the exact resulting state (a document that repeats a member carries no accept/reject expectation: refusal, last-wins and first-wins are all accepted), and deep well-typedness plus probe filters are checked after every outcome. Sampling over a very large space, not proof.",
   "DESIGN.md §5 C14",
   "trusted: serde_json / std::io adapters as transport; refjson.rs reference reader (dual encodings of Bytes and Map); bytes after a complete top-level value are outside the property",
   TECH+" (seeded fault search over Read/Write seams + structural document faults, reference model, tape replay/minimisation)"),
  ("C15","wfsim types","fault_enumeration",
-  "Seeded search over delivery faults for scheme and type JSON: every run delivers a real serializer-produced document through one of five serde_json entry points over a fault-injecting Read seam (EINTR, short reads, hard I/O error / early EOF at a chosen offset) or after a structural transport fault (duplicated, reordered, re-encoded members; descriptor deepened to 33..130 layers) and compares the outcome with a reference model of field lists and of the packed type form; the pure encoding identities ride along as an exhaustive sweep (all types up to 8 layers quick / 12 thorough). Sampling, not proof, for the transport part.",
+  "Seeded search over delivery faults for scheme and type JSON: every run delivers a real serializer-produced document through one of five serde_json entry points over a fault-injecting Read seam (EINTR, short reads, hard I/O error / early EOF at a chosen offset) or after a structural transport fault (duplicated, reordered, re-encoded members; descriptor deepened to 33..130 layers) and compares the outcome with a reference model of field lists and of the packed type form (a scheme that was read back is then used: lookups by name, re-serialization, a context over it); schemes are also written out through the C API's own entry point, builder histories include refused registrations, names include long multi-byte ones and names the engine knows in other roles; the pure encoding identities ride along as an exhaustive sweep (all types up to 8 layers quick / 12 thorough). Sampling, not proof, for the transport part.",
   "DESIGN.md §5 C15",
   "trusted: serde_json and std::io adapters as transport, the 30-line model of the bit-packed form; hard faults are expected to yield Err iff the fault was observed by the reader",
   TECH+" (seeded fault search over a Read seam + structural document faults, reference model, tape replay/minimisation)"),
